@@ -20,11 +20,13 @@ package core
 // assumed contract of hex.DecodeString), so it contains no path separator and no dot.
 //@ func ValidateSHA256
 //@   ensures hex64: result == nil ==> len(s) == 64 && hexstr(s)
+//@   ensures accepts_hex64: len(s) == 64 && hexstr(s) ==> result == nil
 
 // The raw form (format string) is not modelled: raw_format is assumed.
 //@ func NewSHA256DigestFromHex
 //@   ensures built: result1 == nil ==> result0.algo == SHA256 && result0.hex == hex
 //@   ensures validated: result1 == nil ==> len(result0.hex) == 64 && hexstr(result0.hex)
+//@   ensures accepts_hex64: len(hex) == 64 && hexstr(hex) ==> result1 == nil
 //@   lemma raw_format: result1 == nil ==> result0.raw == rawOf(hex)
 
 //@ func ParseSHA256Digest
@@ -106,3 +108,34 @@ package core
 //@   requires blob != nil && 0 <= blob.pos && blob.pos <= blob.size && blob.size <= 4611686018427387904
 //@   modifies blob.pos, every io.Writer.wsrc, every io.Writer.wlo, every io.Writer.whi
 //@   ensures describes: result1 == nil ==> result0 != nil && blob.pos == blob.size && result0.info.Length == blob.size - old(blob.pos) && result0.info.PieceLength == pieceLength && result0.info.Name == d.hex && result0.digest == d && len(result0.info.PieceSums) == npieces(result0.info.Length, pieceLength)
+
+// ---- serializing and parsing a metainfo (C02) --------------------------------------------------
+// JSON is not modelled. miEnc(id) says that the byte slice named id = sliceid(b) is the JSON form
+// of a metainfo; miEncLen / miEncPL / miEncN / miEncName / miEncSum name what it encodes. What
+// json.Marshal and json.Unmarshal do is assumed at their call sites (assume_after); everything
+// the functions do around those calls is verified: parsing accepts every serialized metainfo that
+// is named by a digest and returns exactly the encoded length, piece length, sums and name.
+//@ specfunc miEnc(id int) bool
+//@ specfunc miEncLen(id int) int
+//@ specfunc miEncPL(id int) int
+//@ specfunc miEncN(id int) int
+//@ specfunc miEncName(id int) string
+//@ specfunc miEncSum(id int, i int) int
+//@ specfunc miEncodes(id int, mi *MetaInfo) bool = miEnc(id) && miEncLen(id) == mi.info.Length && miEncPL(id) == mi.info.PieceLength && miEncN(id) == len(mi.info.PieceSums) && miEncName(id) == mi.info.Name && (forall i int :: 0 <= i && i < len(mi.info.PieceSums) ==> miEncSum(id, i) == mi.info.PieceSums[i])
+
+//@ func MetaInfo.Serialize
+//@   requires mi != nil
+//@   assume_after json_encodes: at json.Marshal#0 :: result1 == nil && miEncodes(sliceid(result0), mi)
+//@   ensures encoded: result1 == nil && miEncodes(sliceid(result0), mi)
+
+// Assumed: bencoding a struct of integers, a string and an integer slice into a memory buffer
+// cannot fail.
+//@ func info.Hash
+//@   trusted
+//@   ensures never_fails: result1 == nil
+
+//@ func DeserializeMetaInfo
+//@   modifies *
+//@   assume_after json_decodes: at json.Unmarshal#0 :: miEnc(sliceid(data)) ==> result == nil && j.Info.Length == miEncLen(sliceid(data)) && j.Info.PieceLength == miEncPL(sliceid(data)) && len(j.Info.PieceSums) == miEncN(sliceid(data)) && j.Info.Name == miEncName(sliceid(data)) && (forall i int :: 0 <= i && i < len(j.Info.PieceSums) ==> j.Info.PieceSums[i] == miEncSum(sliceid(data), i))
+//@   ensures accepts_serialized: miEnc(sliceid(data)) && len(miEncName(sliceid(data))) == 64 && hexstr(miEncName(sliceid(data))) ==> result1 == nil
+//@   ensures layout_preserved: result1 == nil && miEnc(sliceid(data)) ==> result0 != nil && miEncodes(sliceid(data), result0) && result0.digest.hex == miEncName(sliceid(data))
